@@ -12,9 +12,10 @@
 (*   o        the options of a listing (kinds and window; rec/rev unused)  *)
 (*                                                                         *)
 (* Deliver(D, ev, o) is the SET of allowed outcomes [k, p, q]; it is a     *)
-(* singleton except in the corners the property leaves open: a move whose  *)
-(* two ends both match the grammar but lie on different sides of the time  *)
-(* window, and the legacy metadata.h5 with only one property flag on.      *)
+(* singleton except in the corners the property leaves open: HOW a move    *)
+(* whose two ends both match the grammar but lie on different sides of the *)
+(* time window is reported (not WHETHER: see below), and the legacy        *)
+(* metadata.h5 with only one property flag on.                             *)
 (***************************************************************************)
 EXTENDS Listing
 
@@ -38,7 +39,11 @@ Deliver(D, ev, o) ==
     IN  IF Unsure(f, o) \/ Unsure(g, o) THEN all
         ELSE IF nf /\ ng THEN (IF mf /\ mg THEN {Out("moved", ev.s, ev.d)}
                                ELSE IF ~mf /\ ~mg THEN {Nothing}
-                               ELSE all)                                   \* window-split move: unconstrained
+                               \* window-split move.  The file is at the destination now and the property speaks of the
+                               \* path a listing would show it at: into the window - accepted (as a move or as a creation);
+                               \* out of the window - nothing may say that a listable file exists at the destination
+                               ELSE IF mg THEN {Out("moved", ev.s, ev.d), Out("created", ev.d, 0)}
+                               ELSE {Nothing, Out("deleted", ev.s, 0)})
         ELSE IF nf THEN (IF mf THEN {Out("deleted", ev.s, 0)} ELSE {Nothing})   \* tracked file renamed away
         ELSE IF ng THEN (IF mg THEN {Out("created", ev.d, 0)} ELSE {Nothing})   \* e.g. the finalizing rename tmp.x -> x
         ELSE {Nothing}
